@@ -5,6 +5,7 @@ import (
 	"encoding/json"
 	"fmt"
 	"strings"
+	"unicode/utf16"
 )
 
 type builtinJSONParseContext struct {
@@ -157,11 +158,10 @@ func builtinJSONStringify(call FunctionCall) Value {
 		switch spaceValue.kind {
 		case valueString:
 			value := spaceValue.string()
-			if len(value) > 10 {
-				ctx.gap = value[0:10]
-			} else {
-				ctx.gap = value
+			if units := utf16.Encode([]rune(value)); len(units) > 10 {
+				value = string(utf16.Decode(units[:10]))
 			}
+			ctx.gap = value
 		case valueNumber:
 			value := spaceValue.number().int64
 			if value > 10 {
